@@ -499,6 +499,10 @@ type c20SeqNos struct {
 	Base    uint64 `json:"base"`
 	Step    uint64 `json:"step"`
 	Calls   int    `json:"calls"`
+	// FailNode k > 0: node (k-1) mod servers answers its request with TMPFAIL, FailDelayMs after it arrived (the other nodes
+	// answer at once): the call as a whole was not confirmed
+	FailNode    int `json:"fail_node,omitempty"`
+	FailDelayMs int `json:"fail_delay_ms,omitempty"`
 }
 
 func c20ExecSeqNos(sc c20SeqNos) string {
@@ -507,9 +511,31 @@ func c20ExecSeqNos(sc c20SeqNos) string {
 	for v := 0; v < sc.NumVb; v++ {
 		e.c.High[uint16(v)] = sc.Base + uint64(v)*sc.Step
 	}
+	if sc.FailNode > 0 {
+		bad := (sc.FailNode - 1) % sc.Servers
+		e.c.Hook = func(en *simnodeEntry) simnodeAction {
+			if en.Cmd == memd.CmdGetAllVBSeqnos && en.Node == bad {
+				time.Sleep(time.Duration(sc.FailDelayMs) * time.Millisecond)
+				return simnodeAction{Kind: simnodeStatus, Status: memd.StatusTmpFail}
+			}
+			return simnodeAction{}
+		}
+	}
 	e.c.Unlock()
 	for i := 0; i < sc.Calls; i++ {
 		m, err := e.client.GetVBucketSeqNos(false)
+		if sc.FailNode > 0 {
+			if err == nil {
+				n := 0
+				for v := 0; v < sc.NumVb; v++ {
+					if _, ok := m.Load(uint16(v)); ok {
+						n++
+					}
+				}
+				return fmt.Sprintf("call %d: node %d of %d answered its sequence-number request with TMPFAIL (%d ms after the others answered), yet GetVBucketSeqNos reported success (with %d of %d vBuckets): success for an operation the server did not confirm", i, (sc.FailNode-1)%sc.Servers, sc.Servers, sc.FailDelayMs, n, sc.NumVb)
+			}
+			continue
+		}
 		if err != nil {
 			return "HARNESS: healthy node, GetVBucketSeqNos failed: " + err.Error()
 		}
@@ -537,6 +563,13 @@ func TestC20_SeqNosComplete(t *testing.T) {
 	rapid.Check(t, func(rt *rapid.T) {
 		sc := c20SeqNos{NumVb: rapid.SampledFrom([]int{64, 256, 1024, 1024}).Draw(rt, "numvb"), Servers: rapid.IntRange(1, 3).Draw(rt, "servers"),
 			Base: rapid.Uint64Range(1, 1<<40).Draw(rt, "base"), Step: rapid.Uint64Range(0, 1000).Draw(rt, "step"), Calls: rapid.IntRange(1, 12).Draw(rt, "calls")}
+		if rapid.IntRange(0, 2).Draw(rt, "failing") == 0 {
+			sc.FailNode = rapid.IntRange(1, 3).Draw(rt, "failnode")
+			sc.FailDelayMs = rapid.SampledFrom([]int{0, 5, 40, 150}).Draw(rt, "faildelay")
+			if sc.Calls > 4 {
+				sc.Calls = 4
+			}
+		}
 		journal("C20", "c20seqnos", sc)
 		d := c20ExecSeqNos(sc)
 		journalDone()
@@ -546,7 +579,14 @@ func TestC20_SeqNosComplete(t *testing.T) {
 		if d != "" {
 			violation(rt, "C20", "c20seqnos", sc, "%s", d)
 		}
-		record("C20", sc, sc.NumVb >= 256, "seqnos_complete_cases")
+		labs := []string{"seqnos_complete_cases"}
+		if sc.FailNode > 0 {
+			labs = append(labs, "seqnos_one_node_fails")
+			if sc.Servers >= 2 && sc.FailDelayMs > 0 {
+				labs = append(labs, "seqnos_one_node_fails_after_the_others_answered")
+			}
+		}
+		record("C20", sc, sc.NumVb >= 256 || sc.FailNode > 0, labs...)
 	})
 }
 
